@@ -387,7 +387,14 @@ void generate(sim::Rng& g, const std::string&, const std::string& tier, Json& pr
     bool thorough = tier == "thorough";
     program = Json::object();
     int serial = 0;
-    program.set("tree", gen_tree(g, 0, thorough ? 4 : 3, thorough ? 6 : 4, thorough, serial, "root"));
+    Json tree = gen_tree(g, 0, thorough ? 4 : 3, thorough ? 6 : 4, thorough, serial, "root");
+    if (g.below(8) == 0) {   // a chain of 10-16 nested directories with a file at the bottom
+        int depth = g.range(10, 16);
+        Json node = Json::object().set("n", std::string("bottom")).set("s", (int64_t)g.range(0, 5000));
+        for (int i = depth; i > 0; i--) node = Json::object().set("n", "c" + std::to_string(i)).set("d", Json::array().push(node));
+        tree.at("d").push(node);
+    }
+    program.set("tree", tree);
     static const int lim[] = {0, 0, 40, 8};
     program.set("rlimit", lim[g.below(4)]);
     program.set("unknown_dtype", g.below(2) ? 0.25 : 0.0);
